@@ -637,8 +637,6 @@ class Explorer:
 
     # -- harness API --------------------------------------------------------------------
     def _declare(self, name, const):
-        if name in self.vars and self.fresh_run:
-            pass
         self.vars[name] = const
         return const
 
